@@ -21,3 +21,12 @@ package util
 //@ func (*KeyObj).PoolAppPrefix trusted noeffect
 //@   requires [C18] k != nil
 //@   ensures result == poolAppPrefixStr(k.PoolName, k.AppTypePrefix, k.Namespace, k.AppName)
+
+// ---- key construction (C11): the application part of a deployment pod's key ----
+// For a pod owned by exactly one ReplicaSet the deployment name is the ReplicaSet name up to (not
+// including) its LAST dash, or the whole name if it has no dash; any other pod has none.
+//@ func [C11,C18] resolveDeploymentName
+//@   requires pod != nil
+//@   ensures [C11:deployment-name-is-replicaset-name-before-last-dash] len(pod.OwnerReferences) == 1 && pod.OwnerReferences[0].Kind == "ReplicaSet" ==> (lastIndexOf(pod.OwnerReferences[0].Name, "-") == -1 ? result == pod.OwnerReferences[0].Name : result == substr(pod.OwnerReferences[0].Name, 0, lastIndexOf(pod.OwnerReferences[0].Name, "-")))
+//@   ensures [C11:no-deployment-name-otherwise] !(len(pod.OwnerReferences) == 1 && pod.OwnerReferences[0].Kind == "ReplicaSet") ==> result == ""
+//@   modifies nothing
